@@ -801,4 +801,132 @@ example :
           (Ex.contr .add .null ["i"] [.contr .null .mul [] [.contr .null .mul [] [f, .num 1], g]])) = true := by
   refine ⟨by decide, by decide, by decide⟩
 
+/-! ## coincidence: values depend only on input names -/
+
+mutual
+  /-- Every leaf looks only at its declared inputs, and only ⊕-reductions bind variables. -/
+  def LeavesWF : Ex R → Prop
+    | .leaf ins f => DependsOn f ins
+    | .num _ => True
+    | .binary _ l r => LeavesWF l ∧ LeavesWF r
+    | .reduce op vars e => (op = .add ∨ vars = []) ∧ LeavesWF e
+    | .contr red _ vars ts => (red = .add ∨ vars = []) ∧ LeavesWFList ts
+    | .subs e _ => LeavesWF e
+    | .unary _ e => LeavesWF e
+  def LeavesWFList : List (Ex R) → Prop
+    | [] => True
+    | t :: ts => LeavesWF t ∧ LeavesWFList ts
+end
+
+theorem redFold_dependsOn {op : OpK} {vars : List Name} (hop : op = .add ∨ vars = []) {f : Env → R}
+    {S : List Name} (h : DependsOn f S) : DependsOn (redFold (sr R) size op vars f) (lDiff S vars) := by
+  rcases hop with rfl | rfl
+  · exact sumVars_dependsOn size h
+  · rw [redFold_nil]
+    intro env env' hag
+    exact h env env' (fun n hn => hag n (by simp [lDiff, hn]))
+
+mutual
+  /-- **Coincidence**: the value of a term depends only on its input names (`.inputs`). -/
+  theorem eval_dependsOn : ∀ (t : Ex R), LeavesWF t →
+      DependsOn (fun env => t.eval (sr R) size env) t.ins
+    | .leaf ins f, h => by simpa [Ex.eval, Ex.ins, LeavesWF] using h
+    | .num c, _ => by intro env env' _; simp [Ex.eval]
+    | .binary op l r, h => by
+      simp only [LeavesWF] at h
+      intro env env' hag
+      simp only [Ex.eval, Ex.ins] at hag ⊢
+      have e1 := eval_dependsOn l h.1 env env' (fun n hn => hag n (mem_lUnion.mpr (Or.inl hn)))
+      have e2 := eval_dependsOn r h.2 env env' (fun n hn => hag n (mem_lUnion.mpr (Or.inr hn)))
+      simp only at e1 e2
+      rw [e1, e2]
+    | .reduce op vars e, h => by
+      simp only [LeavesWF] at h
+      simp only [Ex.eval, Ex.ins]
+      exact redFold_dependsOn size h.1 (eval_dependsOn e h.2)
+    | .contr red bin vars ts, h => by
+      simp only [LeavesWF] at h
+      simp only [Ex.eval, Ex.ins]
+      apply redFold_dependsOn size h.1
+      intro env env' hag
+      simp only
+      rw [evalList_dependsOn ts h.2 env env' hag]
+    | .subs e σ, h => by
+      simp only [LeavesWF] at h
+      intro env env' hag
+      simp only [Ex.eval, Ex.ins] at hag ⊢
+      apply eval_dependsOn e h
+      intro n hn
+      unfold applySubs
+      cases hl : σ.lookup n with
+      | none =>
+        simp only
+        apply hag
+        apply List.mem_append.mpr
+        left
+        rw [mem_lDiff]
+        refine ⟨hn, ?_⟩
+        intro hk
+        obtain ⟨p, hp, hpn⟩ := List.mem_map.mp hk
+        rw [List.lookup_eq_none_iff] at hl
+        have := hl p hp
+        simp [hpn] at this
+      | some a =>
+        cases a with
+        | lit k => rfl
+        | var m =>
+          simp only
+          apply hag
+          apply List.mem_append.mpr
+          right
+          have hmem : (n, Arg.var m) ∈ σ := by
+            clear hag
+            induction σ with
+            | nil => simp at hl
+            | cons q σ ih =>
+              obtain ⟨k, a⟩ := q
+              simp only [List.lookup_cons] at hl
+              split at hl
+              · rename_i hk
+                have : n = k := by simpa using hk
+                simp only [Option.some.injEq] at hl
+                rw [this, hl]; simp
+              · exact List.mem_cons_of_mem _ (ih hl)
+          exact List.mem_filterMap.mpr ⟨(n, Arg.var m), hmem, by simp [hn]⟩
+    | .unary u e, h => by
+      simp only [LeavesWF] at h
+      intro env env' hag
+      simp only [Ex.eval, Ex.ins] at hag ⊢
+      have e1 := eval_dependsOn e h env env' hag
+      simp only at e1
+      rw [e1]
+  theorem evalList_dependsOn : ∀ (ts : List (Ex R)), LeavesWFList ts →
+      ∀ env env' : Env, (∀ n ∈ insList ts, env n = env' n) →
+        evalList (sr R) size ts env = evalList (sr R) size ts env'
+    | [], _, _, _, _ => rfl
+    | t :: ts, h, env, env', hag => by
+      simp only [LeavesWFList] at h
+      simp only [evalList, insList] at hag ⊢
+      have e1 := eval_dependsOn t h.1 env env' (fun n hn => hag n (mem_lUnion.mpr (Or.inl hn)))
+      simp only at e1
+      rw [e1, evalList_dependsOn ts h.2 env env' (fun n hn => hag n (mem_lUnion.mpr (Or.inr hn)))]
+end
+
+/-- The semantic freshness hypothesis of `unfoldAt_sound` follows from the syntactic one: a binder
+    that is not an input name of a sibling is fresh for it. -/
+theorem indep_of_not_mem_ins {s : Ex R} (hs : LeavesWF s) {d : Name} (hd : d ∉ s.ins) :
+    Indep (fun env => s.eval (sr R) size env) d :=
+  (eval_dependsOn size s hs).indep hd
+
+/-- The side conditions of the fuse / unfold rules in SYNTACTIC form: the operand is well formed, its
+    binders are not outer binders and are not input names of any sibling. -/
+theorem operandOK_of_syntactic {vars : List Name} {siblings : List (Ex R)} {v : Ex R}
+    (hsib : ∀ s ∈ siblings, LeavesWF s)
+    (h : ∀ r' b' vars' ts', v = .contr r' b' vars' ts' →
+      wfContr r' b' vars' ts' = true ∧ (∀ d ∈ vars', d ∉ vars) ∧ (∀ d ∈ vars', ∀ s ∈ siblings, d ∉ s.ins)) :
+    OperandOK size vars siblings v := by
+  intro r' b' vars' ts' hv
+  obtain ⟨h1, h2, h3⟩ := h r' b' vars' ts' hv
+  exact ⟨h1, h2, fun d hd s hs => indep_of_not_mem_ins size (hsib s hs) (h3 d hd s hs)⟩
+
 end FV.Props.C08
